@@ -433,7 +433,20 @@ class Interp:
         if isinstance(v, SymSet):
             return len(v.items) != 0
         if isinstance(v, HDict):
-            raise Unsupported('truthiness of symbolic dict')
+            # non-empty iff some key of one of the three key spaces is present (skolem witnesses on the
+            # non-empty side, quantified absence on the empty side): exact
+            b = fresh('nonempty', z3.BoolSort())
+            wit, absent = [], []
+            for sp, srt in HDict.SPACES.items():
+                kq = fresh(f'k{sp}', srt)
+                absent.append(z3.ForAll([kq], z3.Select(v.maps[sp], kq) == VAL.absent))
+                kw = fresh(f'w{sp}', srt)
+                wit.append(z3.Select(v.maps[sp], kw) != VAL.absent)
+            if self.ctx.branch(b, 'dict nonempty'):
+                self.ctx.assume(z3.Or(*wit))
+                return True
+            self.ctx.assume(z3.And(*absent))
+            return False
         return bool(v)
 
     def truthy_val(self, e):
